@@ -46,6 +46,10 @@ CaseOK(e) == LET r == Eval(cfg.expr, env)
              IN /\ OracleOK(r, e.py)
                 /\ MonitorOK(e.py, e.te, FALSE) /\ ModelOK(r, e.te, FALSE)
                 /\ MonitorOK(e.py, e.ts, TRUE) /\ ModelOK(r, e.ts, TRUE)
+                \* the third entry point, evaluate_or_none: it has no default to fall back to (None, or the error is passed
+                \* on) - judged where Python yields a value: exactly that value, never None for a falsy one
+                /\ (e.py.kind = "value" /\ e.py.val.k # "none") => (e.tn.kind = "value" /\ e.tn.eq)
+                /\ (e.py.kind # "value" \/ e.py.val.k = "none") => (e.tn.kind # "value" \/ e.py.kind \notin {"type", "missing", "noname", "zerodiv", "value"})
 \* ---- part B ------------------------------------------------------------------------------------------------
 \* after a step: is the manual subscriber's future done, what does the automatic consumer hold, did the
 \* condition-driven event_player entry post its event
